@@ -129,6 +129,11 @@ func DefaultKey(c Case, n, i Obs) string {
 // cases of the run (attribution to a minimal failing sub-case, DESIGN §1.5).
 var Rekey func(name, key string, failing map[string]bool) string
 
+// Symptoms maps the name of every failing case of the run to its symptom (the first difference between the
+// native and the interpreted observation). A Rekey function that only reduces towards cases with the SAME symptom
+// cannot hide a new misbehaviour of a complex case behind a known misbehaviour of a simpler one.
+var Symptoms = map[string]string{}
+
 // RunAll compares every registered case (accepted by filter) and records failures in r.
 func RunAll(r *report.Run, filter func(name string) bool, key KeyFn, opt Options, po par.Opts) {
 	var sel []int
@@ -167,6 +172,7 @@ func RunAll(r *report.Run, filter func(name string) bool, key KeyFn, opt Options
 	failing := map[string]bool{}
 	for _, o := range res.Outs {
 		failing[o.FC.Name] = true
+		Symptoms[o.FC.Name] = strings.TrimPrefix(o.What, o.FC.Name+": ")
 	}
 	for _, a := range res.Abnormal {
 		failing[Cases[sel[a.Idx]].Name] = true
